@@ -371,6 +371,8 @@ def C16(ctx):
     t = Tm.c16_t1(sctx, f)
     Tm.c16_r(sctx, f, t)
     Tm.c16_entry(ctx, f)
+    # the rendering of one symbol must not depend on an earlier rendering: no static / thread-local state in the crate
+    P.p1_statics(ctx, f, rid="C16.P1")
     return dict(
         level="other",
         explanation="The (top, bottom) -> glyph decision table is extracted from print_line's MIR and is the documented bijection; "
